@@ -173,6 +173,21 @@ class WorldScenario(BaseScenario):
                         {"id": -1, "k": "close_reopen", "sub": sub(), "h": "B", "keep": False},
                     ]
                     sim.probe("mixed_version_opening")
+                if ops is None and not getattr(world, "pending", None) and cfg.get("two_ws") and self.prop in ("C09", "C06") and rng.random() < 0.5:
+                    # opening moves of half of the two-workspace runs: an object whose data sit in a property group (what cross-workspace
+                    # copies with partly retained identifiers need)
+                    from . import build as _build
+
+                    sub = lambda: rng.getrandbits(64)  # noqa: E731
+                    world.pending = [
+                        {"id": -1, "k": "mk_object", "sub": sub(), "h": "A", "keep": False, "cls": "Points",
+                         "t": {"by": None, "n": 0, "fb": 0, "want": "container"}, "args": {"cls": "Points", "name": "grouped", "vertices": [[0.0, 0.0, 0.0], [1.0, 0.5, 0.0], [2.0, 0.25, 0.0]]}},
+                        {"id": -1, "k": "add_data", "sub": sub(), "h": "A", "keep": False, "t": {"by": 0, "n": 0, "fb": 0, "want": "object"},
+                         "dkind": "float", "assoc": "VERTEX", "len": "exact", "name": "g1", "pg": "pgA", "vseed": rng.getrandbits(32)},
+                        {"id": -1, "k": "add_data", "sub": sub(), "h": "A", "keep": False, "t": {"by": 0, "n": 0, "fb": 0, "want": "object"},
+                         "dkind": "float", "assoc": "VERTEX", "len": "exact", "name": "g2", "pg": "pgA", "vseed": rng.getrandbits(32)},
+                    ]
+                    sim.probe("grouped_object_opening")
                 for i in range(n_ops):
                     op = ops[i] if ops is not None else world.gen_op(rng, i)
                     executed.append(op)
